@@ -132,6 +132,8 @@ def _worker(args):
                     entry['shrink_error'] = traceback.format_exc()[-1500:]
             out['failures'].append(entry)
     faulthandler.cancel_dump_traceback_later()
+    from . import zoo
+    zoo.cleanup()
     return out
 
 
